@@ -384,7 +384,9 @@ def _w_dtype(S, item):
                                                    'the input' % (label, p, ti, t.dtype)))
             for e in evs:
                 if e['kind'] == 'conv-dtypes':
-                    ok = e['data'] == 'in' and (e['weight'] == 'module' if is_module else True)
+                    # the weight is a registered buffer / parameter (follows module.to()) or was cast to the dtype
+                    # of the data explicitly
+                    ok = e['data'] == 'in' and (e['weight'] in ('module', 'in') if is_module else True)
                     if not ok:
                         res['diff'] = 1
                         d = finding('R-DTYPE', label, 'conv-dtypes:%s/%s' % (e['data'], e['weight']),
